@@ -92,6 +92,7 @@ func runHide(c *core.Ctx) {
 			construct := fmt.Sprintf("%s: load of hidden %s", load.FnName(fn), fname)
 			var bad []string
 			seen := map[ssa.Value]bool{}
+			helperDepth := 0
 			var walk func(v ssa.Value)
 			walk = func(v ssa.Value) {
 				if seen[v] {
@@ -152,6 +153,16 @@ func runHide(c *core.Ctx) {
 								walk(val)
 							}
 						case callee != nil && callee.Name() == "GetSafeDetails" && p.InModule(callee) && inSafeDetails:
+						case callee != nil && p.InModule(callee) && callee.Blocks != nil && !sx.Exported(callee) && load.FnPkg(callee) == load.FnPkg(fn) && helperDepth < 2:
+							// an unexported helper of the same package: the parameter that receives the hidden error is
+							// followed inside the helper under the same rules
+							for j, a := range x.Common().Args {
+								if a == v && j < len(callee.Params) {
+									helperDepth++
+									walk(callee.Params[j])
+									helperDepth--
+								}
+							}
 						default:
 							bad = append(bad, fmt.Sprintf("passed to %s at %s", sx.TrimMod(sx.CalleeName(x)), p.Pos(x.Pos())))
 						}
@@ -213,34 +224,86 @@ var rHideKeep = &Rule{
 				c.Fail(name+" in SafeDetails()", et.Named.Obj().Pos(), "type hiding an error has no SafeDetails(): the hidden chain contributes no safe details to reports")
 				continue
 			}
-			ok := false
-			sx.EachInstr(sd, func(in ssa.Instruction) {
-				call, isCall := in.(*ssa.Call)
-				if !isCall {
-					return
-				}
-				if callee := sx.Callee(call); callee != nil && callee.Name() == "GetSafeDetails" && p.InModule(callee) {
-					if derivesFromField(call.Call.Args[0], f, 0) && flowsToReturn(call, sd) {
-						ok = true
-						// inside a chain loop: on every iteration (no layer skipped)
-						for _, l := range naturalLoops(sd) {
-							if !l.Body[call.Block()] {
-								continue
-							}
-							for b := range l.Body {
-								for _, sc := range b.Succs {
-									if sc == l.Header && !call.Block().Dominates(b) {
-										ok = false
+			// keeps(fn, seed): inside fn, GetSafeDetails is applied to (a chain walk over) the seed value and its result
+			// flows to fn's return, on every iteration of the walk. The walk may live in a helper of the package.
+			var keeps func(fn *ssa.Function, seed func(ssa.Value, int) bool, depth int) bool
+			keeps = func(fn *ssa.Function, seed func(ssa.Value, int) bool, depth int) bool {
+				ok := false
+				sx.EachInstr(fn, func(in ssa.Instruction) {
+					call, isCall := in.(*ssa.Call)
+					if !isCall {
+						return
+					}
+					callee := sx.Callee(call)
+					if callee == nil || !p.InModule(callee) {
+						return
+					}
+					if callee.Name() == "GetSafeDetails" {
+						if seed(call.Call.Args[0], 0) && flowsToReturn(call, fn) {
+							ok = true
+							// inside a chain loop: on every iteration (no layer skipped)
+							for _, l := range naturalLoops(fn) {
+								if !l.Body[call.Block()] {
+									continue
+								}
+								for b := range l.Body {
+									for _, sc := range b.Succs {
+										if sc == l.Header && !call.Block().Dominates(b) {
+											ok = false
+										}
 									}
 								}
 							}
 						}
+						return
 					}
-				}
-			})
+					// a helper of the same package that receives the hidden error and whose result is returned
+					if depth < 2 && callee.Blocks != nil && load.FnPkg(callee) == load.FnPkg(fn) && flowsToReturn(call, fn) {
+						for j, a := range call.Call.Args {
+							if j < len(callee.Params) && seed(a, 0) {
+								pj := callee.Params[j]
+								if keeps(callee, func(v ssa.Value, d int) bool { return derivesFromValue(v, pj, d) }, depth+1) {
+									ok = true
+								}
+							}
+						}
+					}
+				})
+				return ok
+			}
+			ok := keeps(sd, func(v ssa.Value, d int) bool { return derivesFromField(v, f, d) }, 0)
 			c.Check(ok, name+" in SafeDetails()", sd.Pos(), "GetSafeDetails(hidden chain) flows to the returned details, for every layer of the hidden chain", "SafeDetails() no longer folds the safe details of every layer of the hidden chain into its own")
 		}
 	},
+}
+
+// derivesFromValue: v is root, or a phi / call / interface conversion over values deriving from it.
+func derivesFromValue(v ssa.Value, root ssa.Value, d int) bool {
+	if v == root {
+		return true
+	}
+	if d > 6 {
+		return false
+	}
+	switch x := v.(type) {
+	case *ssa.Phi:
+		for _, e := range x.Edges {
+			if derivesFromValue(e, root, d+1) {
+				return true
+			}
+		}
+	case *ssa.Call:
+		for _, a := range x.Call.Args {
+			if derivesFromValue(a, root, d+1) {
+				return true
+			}
+		}
+	case *ssa.MakeInterface:
+		return derivesFromValue(x.X, root, d+1)
+	case *ssa.ChangeInterface:
+		return derivesFromValue(x.X, root, d+1)
+	}
+	return false
 }
 
 func derivesFromField(v ssa.Value, f *types.Var, d int) bool {
